@@ -81,7 +81,7 @@ func main() {
 		}
 	} else {
 		// corpus first: forced schedules (Lean schedules replayed on the real code) and deterministic life cycles
-		for _, s := range []string{"restart", "window", "window-busy", "gap", "start-race", "haswork", "foreign"} {
+		for _, s := range []string{"restart", "window", "window-busy", "gap", "start-race", "haswork", "foreign", "zero-workers"} {
 			jobs = append(jobs, job{0, "sched " + s})
 		}
 		for _, cancel := range []bool{false, true} {
